@@ -100,6 +100,7 @@ def run(pid, cfg, tier, seed, replay, ck):
         for f in futs:
             results.append(f.result())
 
+    known_f22 = next((k for k in ck.load_known() if k.get("id") == "F22-C01" and k.get("status") == "known"), None)
     lines, total_cases, nontrivial = [], 0, 0
     rerun_log = []
     for (r, text), (run_name, args) in zip(results, runs):
@@ -123,7 +124,10 @@ def run(pid, cfg, tier, seed, replay, ck):
         for name in r["failed_names"][:20]:
             fails = 0
             for k in range(3):
-                rr, tt = one(run_name, args, extra=["--run", name], tag=f".rerun{k}")
+                # alone and sequentially: client mode -> the client under test gets "-p 1", server mode -> --parallel 1
+                a2 = (args + ["-p", "1"]) if "client" in run_name else args
+                ex2 = ["--run", name, "--max-servers", "1"] + ([] if "client" in run_name else ["--parallel", "1"])
+                rr, tt = one(run_name, a2, extra=ex2, tag=f".rerun{k}")
                 rerun_log.append({"run": run_name, "name": name, "attempt": k, "exit": rr["exit"], "failed": rr["failed"], "total": rr["total"]})
                 if rr["exit"] != 0 or (rr["failed"] or 0) > 0 or not rr["total"]:
                     fails += 1
@@ -133,12 +137,21 @@ def run(pid, cfg, tier, seed, replay, ck):
                 persistent.append(name)
         if len(r["failed_names"]) > 20:
             persistent += r["failed_names"][20:]
+        # known finding F22 (schedule-dependent race of the grpc-go server behind grpc-web over HTTP/1.1)
+        f22 = []
+        for n in list(persistent):
+            i = text.find("FAILED: " + n)
+            if known_f22 and "HTTPVersion:1/Protocol:PROTOCOL_GRPC_WEB/" in n and "(grpc server impl)" in n and "http: invalid Read on closed Body" in text[i:i + 600]:
+                f22.append(n); persistent.remove(n)
+        if f22:
+            print(f"KNOWN-FINDING: property={pid} F22-C01: {known_f22.get('what','')} ({len(f22)} permutation(s) this run)")
         if r["exit"] != 0 and not r["failed_names"] and not problems:
             problems.append(f"runner exit status {r['exit']}: " + text[-600:])
         if persistent:
             problems.append(f"{len(persistent)} unexpected failure(s) persisting over 3 isolated re-runs")
         rec = {k: r[k] for k in ("run", "exit", "computed", "total", "passed", "failed", "expected_failures", "could_not_run", "known_patterns", "known_matched", "wall_s")}
-        rec["transient_failures"] = [n for n in r["failed_names"] if n not in persistent]
+        rec["transient_failures"] = [n for n in r["failed_names"] if n not in persistent and n not in f22]
+        rec["known_finding_F22"] = f22
         rec["persistent_failures"] = persistent
         rec["problems"] = problems
         lines.append(rec)
